@@ -2064,14 +2064,16 @@ class Kconfig(object):
 
         if normalize_unset:
             unset_match = re.compile(r"# {}([^ ]+) is not set".format(self.config_prefix)).match
-            lines = contents.splitlines()
+            # (split at the newlines the writer put there: splitlines() also splits at form feeds and the like,
+            # which a string value may contain)
+            lines = contents.split("\n")
             for idx, line in enumerate(lines):
                 match = unset_match(line)
                 if match:
                     lines[idx] = f"{self.config_prefix}{match.group(1)}=n"
-            if lines:
-                lines[-1] += "\n"
             contents = "\n".join(lines)
+            if contents and not contents.endswith("\n"):
+                contents += "\n"
 
         if self._write_if_changed(filename, contents):
             return f"Minimal configuration saved to '{filename}'"
